@@ -382,37 +382,50 @@ def gl4(prog):
         if "HashMap" in fn.locals[i]["s"]:
             cache_idx = i - 1
     errs, n_ext = [], 0
-    for g in prog.lib_fns:
-        if g is fn or "::test" in g.npath or not any(b["term"]["k"] == "call" for b in g.blocks) or g.npath.startswith(fn.npath):
-            continue
-        for cs in g.terms.calls:
-            if cs.callee.name != "topdown_h" or fn not in prog.resolve(cs.callee) or cache_idx is None or len(cs.args) <= cache_idx:
+
+    def walk(x):
+        if isinstance(x, tuple):
+            yield x
+            for y in x:
+                yield from walk(y)
+    # a helper that merely forwards its own parameter (a per-polarity branch helper inside the recursion, a private
+    # start-up wrapper) is not where the map comes from: its callers are examined instead
+    targets, seen_t = [(fn, cache_idx)], {(fn.npath, cache_idx)}
+    while targets:
+        tgt, tidx = targets.pop()
+        for g in prog.lib_fns:
+            if "::test" in g.npath or not any(b["term"]["k"] == "call" for b in g.blocks):
                 continue
-            n_ext += 1
-            a = strip(cs.args[cache_idx])
-            v = strip(g.terms.state_in[cs.bb].get(a[1])) if a[0] == "mutref" and a[1] in g.terms.state_in.get(cs.bb, {}) else a
-            def walk(x):
-                if isinstance(x, tuple):
-                    yield x
-                    for y in x:
-                        yield from walk(y)
-            fresh = any(mir.is_call(v, n_) for n_ in ("default", "new", "with_capacity", "with_hasher", "with_capacity_and_hasher"))
-            from_outside = [x for x in walk(v) if x and x[0] == "param"]
-            if fresh and not from_outside:
-                continue
-            # a longer-lived map that is emptied first is as good as a new one
-            cleared = [c2 for c2 in g.terms.calls if c2.callee.name == "clear" and c2.args and g.cfg.dominates(c2.bb, cs.bb) and
-                       (strip(c2.args[0]) == a or (a[0] == "mutref" and strip(g.terms.state_in[c2.bb].get(strip(c2.args[0])[1], ())
-                                                                       if strip(c2.args[0])[0] == "mutref" else strip(c2.args[0])) == v)
-                        or any(x in list(walk(strip(c2.args[0]))) for x in walk(v) if x and x[0] == "call"))]
-            if cleared:
-                continue
-            if from_outside:
-                errs.append("%s hands topdown_h a component cache that comes from %s and outlives the call: its keys are residual "
-                            "hashes relative to one CNF's hasher, so a second compilation through the same builder finds the first "
-                            "one's sub-diagrams under its own keys" % (g.npath.split("::")[-1], show(v)[:50]))
-            else:
-                errs.append("?the component cache handed to topdown_h is %s" % show(v)[:60])
+            for cs in g.terms.calls:
+                if cs.callee.name != tgt.name or tgt not in prog.resolve(cs.callee) or tidx is None or len(cs.args) <= tidx:
+                    continue
+                a = strip(cs.args[tidx])
+                v = strip(g.terms.state_in[cs.bb].get(a[1])) if a[0] == "mutref" and a[1] in g.terms.state_in.get(cs.bb, {}) else a
+                if v[0] == "param" and isinstance(v[1], int) and 1 <= v[1] <= g.argc and "HashMap" in g.locals[v[1]]["s"] and g.kind != "Closure":
+                    if (g.npath, v[1] - 1) not in seen_t:
+                        seen_t.add((g.npath, v[1] - 1))
+                        targets.append((g, v[1] - 1))
+                    continue
+                if g is fn or g.npath.startswith(fn.npath):
+                    continue
+                n_ext += 1
+                fresh = any(mir.is_call(v, n_) for n_ in ("default", "new", "with_capacity", "with_hasher", "with_capacity_and_hasher"))
+                from_outside = [x for x in walk(v) if x and x[0] == "param"]
+                if fresh and not from_outside:
+                    continue
+                # a longer-lived map that is emptied first is as good as a new one
+                cleared = [c2 for c2 in g.terms.calls if c2.callee.name == "clear" and c2.args and g.cfg.dominates(c2.bb, cs.bb) and
+                           (strip(c2.args[0]) == a or (a[0] == "mutref" and strip(g.terms.state_in[c2.bb].get(strip(c2.args[0])[1], ())
+                                                                           if strip(c2.args[0])[0] == "mutref" else strip(c2.args[0])) == v)
+                            or any(x in list(walk(strip(c2.args[0]))) for x in walk(v) if x and x[0] == "call"))]
+                if cleared:
+                    continue
+                if from_outside:
+                    errs.append("%s hands topdown_h a component cache that comes from %s and outlives the call: its keys are residual "
+                                "hashes relative to one CNF's hasher, so a second compilation through the same builder finds the first "
+                                "one's sub-diagrams under its own keys" % (g.npath.split("::")[-1], show(v)[:50]))
+                else:
+                    errs.append("?the component cache handed to topdown_h is %s" % show(v)[:60])
     if not n_ext:
         errs.append("?no outside caller of topdown_h found")
     out.append(inst("GL", "%s:GL4:component-cache-per-compilation" % fn.npath, verdict_of(errs), fn, None,
